@@ -641,8 +641,23 @@ func compareNode(ctx context.Context, repo *repository.Repository, got *data.Nod
 	if !got.ModTime.Equal(want.MTime) {
 		return fmt.Sprintf("%s: mtime %v, want %v", path, got.ModTime, want.MTime)
 	}
-	if got.Mode.Perm() != want.Mode.Perm() {
+	special := os.ModeSetuid | os.ModeSetgid | os.ModeSticky
+	if got.Mode.Perm() != want.Mode.Perm() || got.Mode&special != want.Mode&special {
 		return fmt.Sprintf("%s: mode %v, want %v", path, got.Mode, want.Mode)
+	}
+	if got.UID != want.UID || got.GID != want.GID {
+		return fmt.Sprintf("%s: owner %d:%d, want %d:%d", path, got.UID, got.GID, want.UID, want.GID)
+	}
+	if want.Mode&os.ModeDevice != 0 && got.Device != want.Dev {
+		return fmt.Sprintf("%s: device %#x, want %#x", path, got.Device, want.Dev)
+	}
+	if len(got.ExtendedAttributes) != len(want.Xattr) {
+		return fmt.Sprintf("%s: %d extended attributes, want %d", path, len(got.ExtendedAttributes), len(want.Xattr))
+	}
+	for i, x := range want.Xattr {
+		if got.ExtendedAttributes[i].Name != x.Name || !bytes.Equal(got.ExtendedAttributes[i].Value, x.Value) {
+			return fmt.Sprintf("%s: extended attribute %d is %s=%x, want %s=%x", path, i, got.ExtendedAttributes[i].Name, got.ExtendedAttributes[i].Value, x.Name, x.Value)
+		}
 	}
 	return ""
 }
